@@ -123,6 +123,10 @@ func Obs() string {
 	fmt.Fprintln(os.Stdout, "` + tokOsOut + `")
 	fmt.Fprintln(os.Stderr, "` + tokOsErr + `")
 	flag.CommandLine.PrintDefaults()
+	func() {
+		defer func() { recover() }()
+		flag.CommandLine.Parse([]string{"-c13nope"})
+	}()
 	var s, t string
 	fmt.Scan(&s)
 	fmt.Fscan(os.Stdin, &t)
@@ -133,16 +137,40 @@ func Obs() string {
 }
 
 // obsNames: the observations of the main script, in the order they are reported.
-var obsNames = []string{"args", "nargs", "clname", "clargs", "fargs", "environ", "println", "logprint", "builtin", "scan", "osstdout", "osstderr", "osstdin", "clout"}
+var obsNames = []string{"args", "nargs", "clname", "clusage", "clargs", "fargs", "environ", "println", "logprint", "builtin", "scan", "osstdout", "osstderr", "osstdin", "clout"}
+
+// usageLine: the heading the flag package prints for a set of that name on a parse error
+func usageLine(name string) string {
+	if name == "" {
+		return "Usage:"
+	}
+	return "Usage of " + name + ":"
+}
+
+// usageSeen: the heading as it was printed (on whichever stream), cut before the list of defaults
+func usageSeen(o *outcome) string {
+	if o == nil {
+		return "not-run"
+	}
+	all := o.HostErr + o.HostOut
+	if o.Res != nil {
+		all = o.Res.OptErr + o.Res.OptOut + all
+	}
+	i := strings.Index(all, "flag provided but not defined: -c13nope\nUsage")
+	if i < 0 {
+		return "no-usage-line"
+	}
+	rest := all[i+len("flag provided but not defined: -c13nope\n"):]
+	if j := strings.Index(rest, "\n  -c13child"); j >= 0 {
+		return rest[:j]
+	}
+	return "unterminated:" + rest
+}
 
 // obsClass is the divergence class of (input, observation): a predicate of the input alone.
 func (c caseT) obsClass(obs string) string {
 	o := c.Opts
 	switch obs {
-	case "clname":
-		if len(o.Args) > 0 {
-			return "flag.CommandLine named after the host program"
-		}
 	case "fargs":
 		if o.Args != nil {
 			return "package-level flag function"
@@ -283,6 +311,7 @@ func implObs(c caseT, o *outcome) map[string]string {
 	m["logprint"] = tokDest(o, tokLog, true)
 	m["osstderr"] = tokDest(o, tokOsErr, true)
 	m["clout"] = tokDest(o, tokClOut, true)
+	m["clusage"] = usageSeen(o)
 	return m
 }
 
@@ -389,10 +418,23 @@ func modelObs(c caseT, answer string, o *outcome) map[string]string {
 	} else {
 		m["args"], m["nargs"], m["clargs"] = "unknown", "unknown", "unknown"
 	}
-	if nv, ok := argsOfSrc(get("clname"), host); ok && len(nv) > 0 {
-		m["clname"] = nv[0]
-	} else {
-		m["clname"] = "unknown"
+	// (clname head ARGS) = element 0 of that vector, "" when it is empty | (clname host0) = the host's os.Args[0]
+	m["clname"], m["clusage"] = "unknown", "unknown"
+	if cn := get("clname"); len(cn) > 0 {
+		switch cn[0].atom {
+		case "head":
+			if nv, ok := argsOfSrc(cn[1:], host); ok {
+				name := ""
+				if len(nv) > 0 {
+					name = nv[0]
+				}
+				m["clname"], m["clusage"] = name, usageLine(name)
+			}
+		case "host0":
+			if len(host) > 0 {
+				m["clname"], m["clusage"] = host[0], usageLine(host[0])
+			}
+		}
 	}
 	if fv, ok := argsOfSrc(get("fparse"), host); ok {
 		_, m["fargs"] = refFlagParse(fv)
@@ -432,9 +474,9 @@ func refObs(c caseT, o *outcome) map[string]string {
 	m["args"], m["nargs"] = quoteList(argv), strconv.Itoa(len(argv))
 	m["clargs"], m["fargs"] = refFlagParse(argv)
 	if len(argv) > 0 {
-		m["clname"] = argv[0]
+		m["clname"], m["clusage"] = argv[0], usageLine(argv[0])
 	} else {
-		m["clname"] = "any"
+		m["clname"], m["clusage"] = "any", "any" // Go itself has no command line without a program name
 	}
 	if c.Cfg.Unrestricted {
 		m["environ"] = "any" // the property is about restricted mode
